@@ -445,9 +445,9 @@ func (s *Server) initEndpoints() {
 }
 
 func (s *Server) Node(nid *ua.NodeID) *Node {
-	ns := int(nid.Namespace())
-	if ns < len(s.namespaces) {
-		return s.namespaces[ns].Node(nid)
+	ns, err := s.Namespace(int(nid.Namespace()))
+	if err != nil {
+		return nil
 	}
-	return nil
+	return ns.Node(nid)
 }
